@@ -141,6 +141,46 @@ fn ob_c11_char_casing(c: char) {
     }
 }
 
+//@ob C18.contract.is_meta_character
+//@ props: C18
+//@ kind: complete
+//@ contract: is_meta_character
+//@ fns: src/lib.rs::is_meta_character
+//@ pre: none (all of char)
+//@ post: [attribute contract] true exactly for the thirteen documented meta-characters ? * $ : < > ( ) [ ] { } ,
+fn ob_c18_contract_is_meta_character(c: char) {
+    let r = is_meta_character(c);
+    vreplay_assert!(r == matches!(c, '?' | '*' | '$' | ':' | '<' | '>' | '(' | ')' | '[' | ']' | '{' | '}' | ','), "C18 contract of is_meta_character");
+}
+
+//@ob C18.escape.modular.ascii1
+//@ props: C18
+//@ kind: bounded(strings of exactly one ASCII character)
+//@ unwind: 6
+//@ stub_verified: is_meta_character
+//@ fns: src/lib.rs::escape
+//@ pre: any one-character ASCII string
+//@ post: [MODULAR: the calls to is_meta_character are replaced by its verified contract] escape(s) is `c`, preceded by a backslash exactly for the thirteen documented meta-characters; otherwise the input slice itself is returned
+fn ob_c18_escape_modular_ascii1(b1: u8) {
+    vassume!(b1 < 128);
+    let buf = [b1];
+    // SAFETY: ASCII bytes are valid UTF-8.
+    let s = unsafe { core::str::from_utf8_unchecked(&buf) };
+    let documented = matches!(b1 as char, '?' | '*' | '$' | ':' | '<' | '>' | '(' | ')' | '[' | ']' | '{' | '}' | ',');
+    vcover!(documented);
+    vcover!(!documented);
+    let escaped = escape(s);
+    let got = escaped.as_bytes();
+    if documented {
+        assert!(got.len() == 2 && got[0] == b'\\' && got[1] == b1, "C18 a documented meta-character is preceded by a backslash");
+        assert!(matches!(escaped, Cow::Owned(_)));
+    }
+    else {
+        assert!(got.len() == 1 && got[0] == b1, "C18 any other character is kept as it is");
+        assert!(matches!(escaped, Cow::Borrowed(b) if core::ptr::eq(b, s)), "C18 unchanged strings are returned as they are");
+    }
+}
+
 //@ob C11.char.casing.titlecase
 //@ props: C11 C05
 //@ kind: complete
